@@ -468,6 +468,14 @@ def _bulged_query(body, bulge, crs, log):
 
     _Bulged.transform = _Mapped.transform
     _Bulged.geom = _Mapped.geom
+    # as the extent of a raster: buffering by a few pixels is ignored here (the atoms only ask for
+    # tiles that reach deeper into the bend than the buffer), intersection with a footprint that
+    # covers it returns it
+    _Bulged.buffer = lambda self, d, *a, **kw: self
+    _Bulged.dropna = lambda self: self
+    _Bulged.is_empty = False
+    _Bulged.__and__ = lambda self, o: self
+    _Mapped.is_empty = False
 
     return _Bulged([body], crs)
 
@@ -505,6 +513,52 @@ def h_tiles_other_crs_bulge(via):
         finally:
             gm.box, gbx.Geometry = saved_box, saved_G
         got = list(itertools.product(yy, xx))
+    elif via == "graph_common":
+        # dependency graph, first step: which destination tiles have data at all.  The SOURCE raster
+        # is the one in the other CRS (lon/lat) and lies inside the destination; its outline is the
+        # query.  The real GeoBox.footprint runs on it (to_crs into its own CRS hands it back as is).
+        depth_min = 20  # the footprints are buffered by 2 source pixels (10 m here): look deeper than that
+        assume(depth > depth_min)
+
+        class _SrcBase(gbx.GeoBox):
+            def __init__(self):
+                pass
+
+            crs = q.crs
+            extent = q
+            _reproject_resolution = lambda self, npoints=100: 1.0  # noqa: E731
+            resolution = type("R", (), {"xy": (5.0, -5.0)})()
+
+        class _Everything:
+            def __rand__(self, o):
+                return o
+
+        class _Src(gbx.GeoboxTiles):
+            def __init__(self):
+                pass
+
+            base = _SrcBase()
+
+            def tiles(self, query):
+                return iter([(0, 0)])
+
+        saved = gbx.GeoBox.footprint
+        real_fp = saved
+
+        def fp(self, crs, buffer=0, npoints=100):
+            if isinstance(self, _SrcBase):
+                return real_fp(self, crs, buffer, npoints)
+            return _Everything()
+
+        gbx.GeoBox.footprint = fp
+        saved_cl = gbx.GeoboxTiles._check_linear
+        gbx.GeoboxTiles._check_linear = lambda self, src: None
+        try:
+            deps = gbt.grid_intersect(_Src())
+        finally:
+            gbx.GeoBox.footprint = saved
+            gbx.GeoboxTiles._check_linear = saved_cl
+        got = list(deps)
     else:
         # dependency graph: the destination raster is the query's grid; its tile outline is the query
         class _DstBase:
@@ -519,6 +573,7 @@ def h_tiles_other_crs_bulge(via):
                 pass
 
             base = _DstBase()
+            _gbox = base
 
             def _check_linear(self, src):
                 return None
@@ -531,6 +586,7 @@ def h_tiles_other_crs_bulge(via):
 
         class _Common:
             is_empty = False
+            crs = q.crs
 
             def __and__(self, o):
                 return self
@@ -552,6 +608,11 @@ def h_tiles_other_crs_bulge(via):
     meets_body = And(x1 > ex(body[0]), x0 < ex(body[2]), y1 > ex(body[1]), y0 < ex(body[3]))
     meets_bulge = And(x1 > ex(bulge[0]), x0 < ex(bulge[2]), y1 > ex(bulge[1]), y0 < ex(bulge[3]))
     prove("tile_meeting_the_quadrilateral_of_the_corners_is_listed", listed, when=meets_body)
+    if via == "graph_common":
+        deep = And(x1 > ex(bulge[0]), x0 < ex(bulge[2]), y1 > ex(bulge[1]), y0 < ex(body[1]) - 20)
+        prove("destination_tile_under_the_source_has_an_entry", listed, when=meets_body)
+        prove("destination_tile_reached_only_through_the_bend_of_the_sources_edge_has_an_entry", listed, when=And(deep, Not(meets_body)))
+        return
     prove("tile_reached_only_through_the_bend_of_an_edge_is_listed", listed, when=And(meets_bulge, Not(meets_body)))
 
 
@@ -654,6 +715,20 @@ def replay_bulge(param, model):
         want = {i for i in alli if dense.intersects(gbt[i].extent)}
         missing = sorted(want - got)
         return {"reproduced": bool(missing), "witness": what, "needed_but_not_listed": [list(map(int, t)) for t in missing][:30], "model": model}
+    if param["via"] == "graph_common":
+        # a lon/lat source inside a polar-stereographic destination: parallels are arcs there
+        src = GeoBox.from_bbox((0, 60, 90, 80), "epsg:4326", resolution=0.1)
+        dst = GeoBox.from_geopolygon(src.footprint("epsg:3413", 0, 400), resolution=5000)
+        S, D = GeoboxTiles(src, (50, 50)), GeoboxTiles(dst, (32, 32))
+        deps = D.grid_intersect(S)
+        missing = []
+        for didx in np.ndindex(D.shape.yx):
+            e = D[didx].extent.to_crs(4326, resolution=1000)
+            want = {t for t in S.tiles(D[didx].extent) if (S[t].extent & e).area > 4 * 0.01}  # more than 4 source pixels
+            if want - set(deps.get(didx, [])):
+                missing.append([int(v) for v in didx])
+        return {"reproduced": bool(missing), "witness": "GeoBox.from_bbox((0,60,90,80),'epsg:4326',resolution=0.1) in 50-px tiles; destination = its EPSG:3413 footprint at 5000 m in 32-px tiles",
+                "destination_tiles_with_missing_source_tiles": missing[:30], "model": model}
     src = GeoBox.from_bbox((140, -40, 150, -30), "epsg:4326", shape=(60, 70))
     dst = src.to_crs("epsg:3577").pad(20)
     s = GeoboxTiles(src, ((17, 23, 20), (31, 9, 30)))
@@ -696,6 +771,10 @@ OBLIGATIONS = [
        descr="grid_intersect (linear path): every source tile overlapping the mapped destination tile by more than a sliver is listed for it; one entry per destination tile",
        functions=("odc.geo.geobox.GeoboxTiles.grid_intersect", "odc.geo.geobox.GeoboxTiles._grid_intersect_linear", "odc.geo.geobox.GeoboxTiles.tiles", "odc.geo.geobox.GeoboxTiles.range_from_bbox", "odc.geo.geom.BoundingBox.transform", "odc.geo.geom.BoundingBox.round"),
        bounds="scale grid x mirroring; destination <= 2 tiles, source <= 4 tiles along the symbolic axis (image sizes symbolic within that); translation symbolic", setup=setup, timeout_ms=30000, deadline_s=1500),
+    Ob("Q2_near_unit_scale_wide", h_grid_intersect, fixed(dict(k="9999991/10000000", mx=1, n_dst=1000000, n_src=1000000, axis="x")),
+       descr="grid_intersect (linear path) between rasters whose pixel sizes differ by 9e-7 (inside the snapping tolerance 1e-6 of the linear test) and that are millions of pixels wide: overlapping source tiles must still be listed",
+       functions=("odc.geo.geobox.GeoboxTiles.grid_intersect", "odc.geo.geobox.GeoboxTiles._check_linear", "odc.geo.math.snap_affine"),
+       bounds="relative scale 1 - 9e-7; tiles of 10^6 pixels, destination <= 2 tiles, source <= 4 tiles; sizes and translation symbolic", setup=setup, timeout_ms=30000, deadline_s=600),
     Ob("Q4_disjoint_general_path", h_disjoint_general_path, fixed(dict(), dict(src_crs="epsg:4283", dst_crs="epsg:3857"), dict(src_crs="epsg:32633", dst_crs="epsg:3857"), dict(src_crs="epsg:3857", dst_crs="epsg:4283")), descr="different CRSs, footprints that do not meet: the dependency graph is empty rather than an error",
        functions=("odc.geo.geobox.GeoboxTiles.grid_intersect", "odc.geo.geobox.GeoboxTiles.tiles", "odc.geo.geobox.GeoboxTiles.range_from_bbox"),
        bounds="symbolic axis-aligned GeoBoxes in two CRSs", stubs=("GeoBox.footprint returns the empty geometry shapely gives for footprints that do not meet (NaN bounding box); the replay uses real disjoint rasters in EPSG:3857 / EPSG:4326",), setup=setup),
@@ -710,8 +789,8 @@ OBLIGATIONS = [
        descr="tiles(geometry) with a (multi-part) stand-in geometry: only tiles meeting a part (none for a geometry outside the raster), every tile meeting one in positive area",
        functions=("odc.geo.geobox.GeoboxTiles.tiles", "odc.geo.geobox.GeoboxTiles.range_from_bbox"), bounds="48 x 64 raster in 3 x 4 tiles; parts up to 100 x 100 units anywhere from far outside to inside",
        stubs=("union-of-rectangles geometry answering to_crs / boundingbox / disjoint exactly", "vertex-list tile footprints"), setup=setup_range_geom, timeout_ms=20000),
-    Ob("Q8_other_crs_bent_edges", h_tiles_other_crs_bulge, fixed(dict(via="tiles"), dict(via="grid_intersect"), dict(via="range_from_bbox")),
-       descr="a query polygon, line, bounding box or destination tile in another CRS whose straight edge bends in the raster's CRS: tiles reached only through the bend are listed too (tile query, box query and dependency graph)",
+    Ob("Q8_other_crs_bent_edges", h_tiles_other_crs_bulge, fixed(dict(via="tiles"), dict(via="grid_intersect"), dict(via="range_from_bbox"), dict(via="graph_common")),
+       descr="a query polygon, line, bounding box, destination tile or source raster in another CRS whose straight edge bends in the raster's CRS: tiles reached only through the bend are listed too (tile query, box query and dependency graph)",
        functions=("odc.geo.geobox.GeoboxTiles.tiles", "odc.geo.geobox.GeoboxTiles.grid_intersect", "odc.geo.geobox.GeoboxTiles.range_from_bbox"),
        bounds="query rectangle, position / width / depth (<= 60 m) of the bend symbolic; 3x4 tiles of 16 px",
        stubs=("union-of-rectangles geometry whose to_crs() maps the vertices only unless a finite resolution is given (the library's own contract for to_crs); PROJ itself replaced by that stand-in, replay on real PROJ with a fixed witness",),
